@@ -130,7 +130,25 @@ chk("C19", "crashx", "fault_enumeration",
     "A few seeds per configuration (the enumeration is over dump points); same interpreter and platform for dump and "
     "resume; runs of 100-250 events (quick).", "DESIGN.md §5/C19")
 
+chk("C20", "schedx", "model_checking",
+    "systematic schedule exploration (deviation/preemption bounding) of the real MultiProcessMediator on in-process "
+    "fakes of multiprocessing under a controlled baton scheduler: 3 configurations x cores {2,3,4} x baseline "
+    "policies {lowest-id, highest-id, round-robin at every primitive, starve worker k for every k} x every "
+    "single-point deviation, each schedule compared with the single-process run; plus a free-running conformance run "
+    "with real OS processes",
+    "Every primitive operation (pipe send/recv/poll, connection.wait, Event set/clear/is_set/wait, semaphore, process "
+    "exit) is a scheduling point owned by the harness; each schedule is a complete execution of the unmodified "
+    "mediator and worker code; oracle: identical commit + sample log, no exception, no deadlock, no live worker after "
+    "post_run; evidence lists the mediator stage vectors and paths (pre-computed used / discarded / trashed while "
+    "running) reached.",
+    "Deviation bound 1 around the baselines (2 in thorough, capped), 4-6 commits per execution; fakes replace the OS "
+    "(validated by one free-running real-process run per configuration); Cell hashing pinned to identifiers for "
+    "reproducibility.", "DESIGN.md §5/C20")
+
 ENGINES = [
+    {"name": "schedx", "path": "jfv/schedx.py", "serves_properties": ["C20"],
+     "kind_free_text": "controlled cooperative scheduler over fake multiprocessing primitives; deviation-bounded "
+                       "enumeration of schedules of the real multi-process mediator"},
     {"name": "crashx", "path": "jfv/crashx.py", "serves_properties": ["C19"],
      "kind_free_text": "dump-point enumeration: reference run + fresh-interpreter resume of every dump, log equality"},
     {"name": "envx", "path": "jfv/envx.py", "serves_properties": ["C07", "C08", "C09", "C11", "C12", "C13", "C17", "C01",
